@@ -242,6 +242,16 @@ def gen(args) -> list:
                     aw3 = None
                 if aw3 is not None:
                     x3 = aw3.replace(tzinfo=None)
+                    # (equal and hash-equal to the first one - the standard library compares aware datetimes by instant - yet another value)
+                    ev4 = {"op": "aware_rt", "x": _xfields(x3), "off": off3, "after_same_instant": True}
+                    try:
+                        inst4 = Instant.from_aware_datetime(aw3)
+                        ev4["inst"] = proj.t3_instant(inst4)
+                        if dt.datetime.min + dt.timedelta(days=2) < x3 < dt.datetime.max - dt.timedelta(days=2):
+                            ev4["back_utc"] = _xfields(inst4.to_datetime_utc().replace(tzinfo=None))
+                    except Exception as e:  # noqa: BLE001
+                        ev4["exc"] = type(e).__name__
+                    evs.append(ev4)
                     ev3 = {"op": "aware_odt", "x": _xfields(x3), "off": off3, "after_same_instant": True}
                     try:
                         odt = OffsetDateTime.from_aware_datetime(aw3)
